@@ -378,3 +378,56 @@ func semaphoreReleased(r *core.Run, rule string) {
 	}
 	r.Floor(rule, cnt, 4)
 }
+
+// c16GlobalMapsSynchronised: a package-level map that is written after start-up is shared by
+// every connection's goroutine. The Go runtime aborts the process on a concurrent map write
+// ("fatal error: concurrent map writes", not recoverable), so two requests that touch such a
+// map at the same time kill the member. Every write to a package-level map outside init
+// sits in a section of a mutex (a Lock call dominates it in the same function).
+func c16GlobalMapsSynchronised(r *core.Run) {
+	const rule = "global-map-writes-synchronised"
+	p := r.P
+	cnt := 0
+	n := counter{}
+	for _, fn := range p.FuncList {
+		if fn.SSA == nil || skipPkg(fn) || strings.HasPrefix(core.RelPkg(fn.Pkg.PkgPath), "internal/test") {
+			continue
+		}
+		for _, sf := range core.AllSSA(fn.SSA) {
+			core.Instrs(sf, func(in ssa.Instruction) {
+				var m ssa.Value
+				switch x := in.(type) {
+				case *ssa.MapUpdate:
+					m = x.Map
+				case *ssa.Call:
+					if b, isB := x.Call.Value.(*ssa.Builtin); isB && b.Name() == "delete" && len(x.Call.Args) > 0 {
+						m = x.Call.Args[0]
+					}
+				}
+				if m == nil {
+					return
+				}
+				u, isLoad := m.(*ssa.UnOp)
+				if !isLoad || u.Op != token.MUL {
+					return
+				}
+				g, isGlobal := u.X.(*ssa.Global)
+				if !isGlobal || g.Pkg == nil || !core.IsRepoPkg(g.Pkg.Pkg) {
+					return
+				}
+				cnt++
+				locked := false
+				core.Instrs(sf, func(l ssa.Instruction) {
+					if op, _, ok := mutexOp(l); ok && (op == "Lock") && core.Dominates(l, in) {
+						locked = true
+					}
+				})
+				r.Check(locked, rule, n.next(fnName(p, sf)+" writes "+g.Name()), site(r, instrPos(in)),
+					"the write is dominated by a mutex Lock in the same function",
+					"the package-level map "+g.Name()+" is written without a mutex: requests on two connections that reach this write concurrently make the runtime abort the process (concurrent map writes)")
+			})
+		}
+	}
+	// usually there are only a few such maps (the error registry); none at all is fine too
+	_ = cnt
+}
